@@ -158,8 +158,8 @@ ENGINE_CHECKS = [check_interactions]
 CANARIES = [
     dict(name="xx_yy_zz: wrong sign of b", file=F + "two_qubit_to_cz.py", engine_check=0,
          find="    c = z * -2 / np.pi + 0.5\n    yield ops.X(q0) ** 0.5", replace="    c = z * 2 / np.pi + 0.5\n    yield ops.X(q0) ** 0.5"),
-    dict(name="ms parity interaction: wrong frame for y", file=F + "two_qubit_to_ms.py", engine_check=0,
-         find="        _parity_interaction(q0, q1, y, atol, ops.Z**-0.5),", replace="        _parity_interaction(q0, q1, y, atol, ops.Z**0.5),"),
+    dict(name="ms parity interaction: sign of the angle", file=F + "two_qubit_to_ms.py", engine_check=0,
+         find="    yield ops.ms(-1 * rads).on(q0, q1)", replace="    yield ops.ms(rads).on(q0, q1)"),
     dict(name="iswap via sqrt-iswap: exponent not halved", file=F + "two_qubit_to_sqrt_iswap.py", engine_check=0,
          find="    yield ops.Z(a) ** (-turns / 2 + 1)\n    yield ops.Z(b) ** (turns / 2)\n    yield _sqrt_iswap_inv(a, b, use_sqrt_iswap_inv)\n    yield ops.Z(a) ** 0.25",
          replace="    yield ops.Z(a) ** (-turns + 1)\n    yield ops.Z(b) ** (turns / 2)\n    yield _sqrt_iswap_inv(a, b, use_sqrt_iswap_inv)\n    yield ops.Z(a) ** 0.25"),
